@@ -40,6 +40,8 @@ pub struct Outcome {
     pub skipped: Vec<String>,
     /// additive counters (e.g. number of injected runs inside one scenario)
     pub counters: Vec<(String, u64)>,
+    /// observed quantities of which the run-wide maximum is reported (measured margins)
+    pub maxima: Vec<(String, f64)>,
 }
 impl Outcome {
     pub fn class(&mut self, c: impl Into<String>) {
@@ -50,6 +52,9 @@ impl Outcome {
     }
     pub fn count(&mut self, c: impl Into<String>, n: u64) {
         self.counters.push((c.into(), n));
+    }
+    pub fn max(&mut self, c: impl Into<String>, v: f64) {
+        self.maxima.push((c.into(), v));
     }
 }
 
@@ -226,6 +231,7 @@ struct Stats {
     classes: BTreeMap<String, u64>,
     skipped: BTreeMap<String, u64>,
     counters: BTreeMap<String, u64>,
+    maxima: BTreeMap<String, f64>,
     samples: Vec<(String, Value)>, // (why, case)
     sample_classes: HashSet<String>,
     known_hits: BTreeMap<String, u64>,
@@ -246,6 +252,12 @@ impl Stats {
         }
         for (k, n) in &o.counters {
             *self.counters.entry(k.clone()).or_insert(0) += n;
+        }
+        for (k, v) in &o.maxima {
+            let e = self.maxima.entry(k.clone()).or_insert(f64::NEG_INFINITY);
+            if *v > *e {
+                *e = *v;
+            }
         }
         if o.nontrivial {
             let n_first = self.samples.iter().filter(|(w, _)| w == "first").count();
@@ -278,6 +290,12 @@ impl Stats {
         }
         for (k, v) in o.known_hits {
             *self.known_hits.entry(k).or_insert(0) += v;
+        }
+        for (k, v) in o.maxima {
+            let e = self.maxima.entry(k).or_insert(f64::NEG_INFINITY);
+            if v > *e {
+                *e = v;
+            }
         }
         for (w, s) in o.samples {
             if self.samples.len() < 6 {
@@ -596,6 +614,7 @@ pub fn run_property<P: Property>(p: &P, cfg: &RunCfg) -> i32 {
     coverage.insert("classes".into(), json!(total.classes));
     coverage.insert("skipped_subchecks".into(), json!(total.skipped));
     coverage.insert("counters".into(), json!(total.counters));
+    coverage.insert("observed_maxima".into(), json!(total.maxima));
     coverage.insert("excluded_known".into(), json!(total.known_hits));
     coverage.insert("shards".into(), json!(p.shards()));
     coverage.insert("generated_cases_requested".into(), json!(n_cases));
